@@ -90,8 +90,13 @@ func ntRule(r *proxyv1alpha1.DispatchPolicyRule) bool {
 
 // TestPropNormalisationPreservesMatching: generated policies, the real Admit, all probe requests.
 func TestPropNormalisationPreservesMatching(t *testing.T) {
+	stats.Check(t, stats.N(6000, 40000), propNormalisationPreservesMatching())
+}
+
+// propNormalisationPreservesMatching: the property of TestPropNormalisationPreservesMatching (shared with the native fuzz target FuzzNormalisation).
+func propNormalisationPreservesMatching() func(t *rapid.T) {
 	sub := stats.NewSub("admit-preserves-matching", "rapid: UpstreamCluster with 1-3 policies x 1-3 rules (C01 rule generator, all eight fields) admitted by the real plugin (create or update); for every probe request RuleMatches(before)==RuleMatches(after) per rule and MatchPolicies picks the same index; Admit(Admit(x))==Admit(x); non-trivial = some rule has '*' among other entries, mixed positive/inverted entries, or duplicates; distinct by FNV-64 of the policy list")
-	stats.Check(t, stats.N(6000, 40000), func(t *rapid.T) {
+	return func(t *rapid.T) {
 		policies := gen.GenPolicies(t, "policies", 3, 3)
 		extra := gen.GenRequest(t, "req")
 		op := admission.Create
@@ -132,7 +137,13 @@ func TestPropNormalisationPreservesMatching(t *testing.T) {
 				sub.Sample(map[string]interface{}{"submitted": gen.PoliciesString(policies), "stored": gen.PoliciesString(once.Spec.DispatchPolicies), "probe_requests": len(probes) + 1})
 			}
 		}
-	})
+
+	}
+}
+
+// FuzzNormalisation: the same property driven by Go's coverage-guided fuzzer (thorough tier): the fuzzer's bytes are rapid's bit stream, so every input comes from the same generators and is judged by the same oracle.
+func FuzzNormalisation(f *testing.F) {
+	f.Fuzz(rapid.MakeFuzz(propNormalisationPreservesMatching()))
 }
 
 // TestPropExhaustiveLists: every list of length <=3 over {a,-a,b,-b,*,""} in each of the seven list fields.
